@@ -947,7 +947,13 @@ class InventoryWorkingTree(WorkingTree, MutableInventoryTree):
             file_id = generate_ids.gen_file_id(os.path.basename(path))
         with self.lock_write():
             os.mkdir(self.abspath(path))
-            self.add([path], ["directory"], ids=[file_id])
+            try:
+                self.add([path], ["directory"], ids=[file_id])
+            except BaseException:
+                # do not leave the directory behind when it cannot be versioned
+                with contextlib.suppress(OSError):
+                    os.rmdir(self.abspath(path))
+                raise
             return file_id
 
     def revision_tree(self, revision_id):
